@@ -1,5 +1,7 @@
 import LhasaV.Model.ListOut
 import LhasaV.Model.Glob
+import LhasaV.Lemmas.ListProps
+import LhasaV.Lemmas.GlobFs
 /-!
 # C19 — list output renders every member's header fields faithfully in Unix-LHA layout
 (structure theorems are being proved in Lemmas/ListProps.lean; this file re-exports what is done)
@@ -10,5 +12,55 @@ open LhasaV
 /-- with no wildcard arguments every member is selected -/
 theorem no_filter_selects_all (h : Header.Hdr) : Glob.matchesFilter [] h = true := by
   simp [Glob.matchesFilter]
+
+open ListOut ListProps in
+/-- **Shape of every listing.** `head ++ rows ++ tail`: `head` (headings, dashes) depends on the
+options only; the rows are the members' rows in archive order, each computed from that member's
+header and the clock alone; `tail` (dashes, totals line) depends on the members only through the
+accumulated totals. -/
+theorem listing_shape (verboseList verboseOpt : Bool) (quiet now archiveMtime : Nat) (hdrs : List Header.Hdr) :
+    render verboseList verboseOpt quiet now archiveMtime hdrs =
+      listHead verboseList verboseOpt quiet ++
+      hdrs.flatMap (printColumns (columnsFor verboseList verboseOpt) now) ++
+      listTail verboseList verboseOpt quiet now (hdrs.foldl accumulate (initStats archiveMtime)) :=
+  ListProps.render_rows verboseList verboseOpt quiet now archiveMtime hdrs
+
+open ListOut ListProps in
+/-- a member's row does not depend on the members before or after it -/
+theorem row_independent (vl vo : Bool) (now : Nat) (hs1 hs2 : List Header.Hdr) (h : Header.Hdr) :
+    listRows vl vo now (hs1 ++ h :: hs2) =
+      listRows vl vo now hs1 ++ printColumns (columnsFor vl vo) now h ++ listRows vl vo now hs2 :=
+  ListProps.listRows_member vl vo now hs1 hs2 h
+
+open ListOut ListProps in
+/-- the totals line: count and sizes are the true sums (as long as they stay below 2^32; beyond,
+they are those sums modulo 2^32 — `ListProps.stats_sums_mod`) -/
+theorem totals_exact (archiveMtime : Nat) (hdrs : List Header.Hdr)
+    (hn : hdrs.length < two32) (hl : sumLength hdrs < two32) (hc : sumCompressed hdrs < two32) :
+    (hdrs.foldl accumulate (initStats archiveMtime)).numFiles = hdrs.length ∧
+    (hdrs.foldl accumulate (initStats archiveMtime)).length = sumLength hdrs ∧
+    (hdrs.foldl accumulate (initStats archiveMtime)).compressedLength = sumCompressed hdrs :=
+  ListProps.render_totals_exact archiveMtime hdrs hn hl hc
+
+open ListOut ListProps in
+/-- one line per member (two in the verbose layouts: the name line and the field line) -/
+theorem row_lines (vl vo : Bool) (now : Nat) (h : Header.Hdr) :
+    List.count (0x0a : UInt8) (printColumns (columnsFor vl vo) now h) = if vo then 2 else 1 :=
+  ListProps.row_newlines vl vo now h
+
+open ListOut ListProps in
+/-- the recent/old switch of the time column, at the exact boundary: a stamp newer than
+`now − 15 552 000 s` shows `HH:MM`, one exactly that old or older shows the year -/
+theorem timestamp_recent {now t : Nat} (h0 : t ≠ 0) (h : now < t + 15552000) :
+    outputTimestamp now t = recentForm t := ListProps.outputTimestamp_recent h0 h
+
+open ListOut ListProps in
+theorem timestamp_old {now t : Nat} (h0 : t ≠ 0) (h : t + 15552000 ≤ now) :
+    outputTimestamp now t = oldForm t := ListProps.outputTimestamp_old h0 h
+
+/-- wildcard arguments select exactly the members whose stored path matches -/
+theorem selection_spec (fs : List (List UInt8)) (hdrs : List Header.Hdr) :
+    Glob.select fs hdrs = hdrs.filter (fun h => fs.isEmpty || fs.any (fun f => Glob.GlobSpec f (Glob.fullName h))) :=
+  GlobFs.select_spec fs hdrs
 
 end LhasaV.Props.C19
